@@ -257,6 +257,11 @@ def run_case(case: Dict[str, Any], faults: List[Dict[str, Any]]) -> Dict[str, An
                     o = cands[0]
                     if not o.isVisible:
                         continue
+                    if ' ' in o.fullName():
+                        # it sits below a definition that a later one of the same name superseded (pydoctor keeps those
+                        # under a renamed key and does not document them): e.g. re-exported into a module that its
+                        # package shadows with a function of the same name
+                        continue
                     page = o.page_object.url
                     if page not in page_cache:
                         try:
